@@ -41,25 +41,26 @@ LineColLFDef(s, off) == LineColOf(BreakEndsLF(s, off), off)
 LineColAnyDef(s, off) == LineColOf(BreakEndsAny(s, off), off)
 
 (* ---- fold form ---------------------------------------------------------- *)
-\* accumulator: ln = line, st = 0-based offset of the first byte of the line,
-\* i = bytes consumed, cr = previous byte was a CR
-LcInit == [ln |-> 1, st |-> 0, i |-> 0, cr |-> FALSE]
+\* accumulator <<ln, st, i, cr>>: ln = line, st = 0-based offset of the first byte of the
+\* line, i = bytes consumed, cr = 1 iff the previous byte was a CR
+\* (tuples, not records: TLC builds tuples an order of magnitude faster)
+LcInit == <<1, 0, 0, 0>>
 
 LcStepLF(a, b) ==
-  IF b = LF THEN [ln |-> a.ln + 1, st |-> a.i + 1, i |-> a.i + 1, cr |-> FALSE]
-  ELSE [a EXCEPT !.i = a.i + 1]
+  IF b = LF THEN <<a[1] + 1, a[3] + 1, a[3] + 1, 0>>
+  ELSE <<a[1], a[2], a[3] + 1, 0>>
 
 LcStepAny(a, b) ==
   IF b = LF THEN
-    IF a.cr THEN [ln |-> a.ln, st |-> a.i + 1, i |-> a.i + 1, cr |-> FALSE]   \* second half of CRLF
-    ELSE [ln |-> a.ln + 1, st |-> a.i + 1, i |-> a.i + 1, cr |-> FALSE]
-  ELSE IF b = CR THEN [ln |-> a.ln + 1, st |-> a.i + 1, i |-> a.i + 1, cr |-> TRUE]
-  ELSE [ln |-> a.ln, st |-> a.st, i |-> a.i + 1, cr |-> FALSE]
+    IF a[4] = 1 THEN <<a[1], a[3] + 1, a[3] + 1, 0>>       \* second half of CRLF
+    ELSE <<a[1] + 1, a[3] + 1, a[3] + 1, 0>>
+  ELSE IF b = CR THEN <<a[1] + 1, a[3] + 1, a[3] + 1, 1>>
+  ELSE <<a[1], a[2], a[3] + 1, 0>>
 
 LineColLF(s, off) ==
-  LET a == FoldLeft(LcStepLF, LcInit, Prefix(s, off)) IN <<a.ln, off - a.st + 1>>
+  LET a == FoldLeft(LcStepLF, LcInit, Prefix(s, off)) IN <<a[1], off - a[2] + 1>>
 
 LineColAny(s, off) ==
-  LET a == FoldLeft(LcStepAny, LcInit, Prefix(s, off)) IN <<a.ln, off - a.st + 1>>
+  LET a == FoldLeft(LcStepAny, LcInit, Prefix(s, off)) IN <<a[1], off - a[2] + 1>>
 
 =============================================================================
